@@ -1127,7 +1127,7 @@ func genMgr(ctx *core.Ctx) {
 		for nc := 0; nc <= 4; nc++ {
 			for kinds := 0; kinds < 1<<nr; kinds++ {
 				// quick: a sample of the (kinds, orders) grid; thorough: all of it
-				if !ctx.Thorough && nr+nc >= 5 && !r.Chance(1, 4) {
+				if !ctx.Thorough && nr+nc >= 6 && !r.Chance(1, 2) {
 					continue
 				}
 				proto := randRunners(r, nr, kinds)
@@ -1143,8 +1143,8 @@ func genMgr(ctx *core.Ctx) {
 					}
 					return out
 				}
-				for _, ri := range pick(len(rperms), 2) {
-					for _, ci := range pick(len(cperms), 2) {
+				for _, ri := range pick(len(rperms), 3) {
+					for _, ci := range pick(len(cperms), 3) {
 						if timeouts.Load() >= maxTimeouts {
 							return
 						}
@@ -1249,7 +1249,7 @@ func c12Gen(ctx *core.Ctx) {
 		kind        string
 		quick, thor int
 	}
-	for _, s := range []st{{"addcloser", 4000, 400000}, {"add", 4000, 300000}, {"closerun", 1500, 60000}} {
+	for _, s := range []st{{"addcloser", 10000, 400000}, {"add", 10000, 300000}, {"closerun", 3000, 60000}} {
 		reps := s.quick
 		if ctx.Thorough {
 			reps = s.thor
